@@ -583,8 +583,13 @@ async fn run_op(c: &str, n: i64, o: &Op) -> Res {
 }
 
 async fn client(name: String, prog: Vec<Op>) {
-    for (i, o) in prog.iter().enumerate() {
-        let n = i as i64 + 1;
+    let mut n = 0i64;
+    for o in prog.iter() {
+        // an operation whose handle does not exist (a failed upgrade earlier) is skipped silently
+        if o.h != "none" && !TAB.with(|t| t.borrow().handles.contains_key(&o.h)) {
+            continue;
+        }
+        n += 1;
         ev(json!({"ev": "op_begin", "task": name, "n": n, "o": o}));
         let res = run_op(&name, n, o).await;
         ev(json!({"ev": "op_end", "task": name, "n": n, "res": res.res, "pos": res.pos, "inst": res.inst, "a": res.a}));
